@@ -154,7 +154,7 @@ def solver_cache_obligations(P):
                 obs.append(Ob("R-KEY-COMPLETE", site, "%s does not reach the result (analytic=%s)" % (pname, analytic), "holds", nontrivial=False))
     # flags: the key material must differ whenever a flag that changes the result differs
     def keysig(run):
-        return [(tuple(sig(a) for a in args), tuple(sorted((k, sig(v)) for k, v in kw.items()))) for args, kw, _ in run.get_calls]
+        return {(tuple(sig(a) for a in args), tuple(sorted((k, sig(v)) for k, v in kw.items()))) for args, kw, _ in run.get_calls}
 
     a0, a1 = CacheRun(P, False, "double", "given", "miss"), CacheRun(P, True, "double", "given", "miss")
     obs.append(req_ob("R-KEY-COMPLETE", site, "requests that differ only in the analytic flag have different key material", keysig(a0) != keysig(a1), key={"param": "analytic"}))
